@@ -4,7 +4,7 @@
 package reader
 
 //@ ghost field Reader.base []byte = data
-//@ globalinv errReader != nil
+//@ globalinv errReader != nil && typeid(errReader) == tyof(*errors.errorString)
 //@ pred inv(r *Reader) = 0 <= r.count && r.count <= len(r.base) && r.data == r.base[r.count:]
 //@ spec be8(b []byte, p mathint) mathint = b[p]
 //@ spec be16(b []byte, p mathint) mathint = b[p]*256 + b[p+1]
@@ -18,46 +18,46 @@ package reader
 //@   requires inv(r)
 //@   ensures inv(r) && r.base == old(r.base)
 //@   ensures old(len(r.data)) >= 1 ==> err == nil && result == be8(old(r.base), old(r.count)) && r.count == old(r.count) + 1
-//@   ensures old(len(r.data)) < 1 ==> err != nil && result == 0 && r.count == old(r.count) && r.data == old(r.data)
+//@   ensures old(len(r.data)) < 1 ==> err == errReader && result == 0 && r.count == old(r.count) && r.data == old(r.data)
 //@   modifies r.data, r.count
 
 //@ func (*Reader).Uint16
 //@   requires inv(r)
 //@   ensures inv(r) && r.base == old(r.base)
 //@   ensures old(len(r.data)) >= 2 ==> err == nil && result == be16(old(r.base), old(r.count)) && r.count == old(r.count) + 2
-//@   ensures old(len(r.data)) < 2 ==> err != nil && result == 0 && r.count == old(r.count) && r.data == old(r.data)
+//@   ensures old(len(r.data)) < 2 ==> err == errReader && result == 0 && r.count == old(r.count) && r.data == old(r.data)
 //@   modifies r.data, r.count
 
 //@ func (*Reader).Uint32
 //@   requires inv(r)
 //@   ensures inv(r) && r.base == old(r.base)
 //@   ensures old(len(r.data)) >= 4 ==> err == nil && result == be32(old(r.base), old(r.count)) && r.count == old(r.count) + 4
-//@   ensures old(len(r.data)) < 4 ==> err != nil && result == 0 && r.count == old(r.count) && r.data == old(r.data)
+//@   ensures old(len(r.data)) < 4 ==> err == errReader && result == 0 && r.count == old(r.count) && r.data == old(r.data)
 //@   modifies r.data, r.count
 
 //@ func (*Reader).Uint64
 //@   requires inv(r)
 //@   ensures inv(r) && r.base == old(r.base)
 //@   ensures old(len(r.data)) >= 8 ==> err == nil && result == be64(old(r.base), old(r.count)) && r.count == old(r.count) + 8
-//@   ensures old(len(r.data)) < 8 ==> err != nil && result == 0 && r.count == old(r.count) && r.data == old(r.data)
+//@   ensures old(len(r.data)) < 8 ==> err == errReader && result == 0 && r.count == old(r.count) && r.data == old(r.data)
 //@   modifies r.data, r.count
 
 //@ func (*Reader).Read
 //@   requires inv(r)
 //@   ensures inv(r) && r.base == old(r.base)
 //@   ensures 0 <= n && n <= old(len(r.data)) ==> err == nil && sameview(result, old(r.data)[:n]) && r.count == old(r.count) + n
-//@   ensures !(0 <= n && n <= old(len(r.data))) ==> err != nil && len(result) == 0 && r.count == old(r.count) && r.data == old(r.data)
+//@   ensures !(0 <= n && n <= old(len(r.data))) ==> err == errReader && len(result) == 0 && r.count == old(r.count) && r.data == old(r.data)
 //@   modifies r.data, r.count
 
 //@ func (*Reader).Peek
 //@   requires inv(r)
 //@   ensures 0 <= n && n <= len(r.data) ==> err == nil && sameview(result, r.data[:n])
-//@   ensures !(0 <= n && n <= len(r.data)) ==> err != nil && len(result) == 0
+//@   ensures !(0 <= n && n <= len(r.data)) ==> err == errReader && len(result) == 0
 
 //@ func (*Reader).PeekUint16
 //@   requires inv(r)
 //@   ensures len(r.data) >= 2 ==> err == nil && res == be16(r.base, r.count)
-//@   ensures len(r.data) < 2 ==> err != nil && res == 0
+//@   ensures len(r.data) < 2 ==> err == errReader && res == 0
 
 //@ func (*Reader).Len
 //@   ensures result == len(r.data)
